@@ -166,6 +166,70 @@ def env_empty_stream(ctx, res, n):
                 res.violate("C12:reset", "reset does not restore the declared default / undefined status", {"stream": "env-empty"})
 
 
+def ctor_env_stream(ctx, res, n):
+    """values that are valid but falsy (0, 0.0, False, "", []) arriving as constructor keywords or through a set environment variable:
+    a keyword is held and user-defined like any assignment; a variable's validated value is the field's starting value, before and
+    after a reset"""
+    import cincoconfig as cc
+    rng = ctx.rng
+    kinds = [("int", lambda **k: cc.IntField(**k), [0, 7], 8080, {"0": 0, "7": 7}),
+             ("float", lambda **k: cc.FloatField(**k), [0.0, 2.5], 1.5, {"0.0": 0.0, "2.5": 2.5}),
+             ("bool", lambda **k: cc.BoolField(**k), [False, True], True, {"false": False, "off": False, "0": False, "yes": True}),
+             ("string", lambda **k: cc.StringField(**k), ["", "x"], "dflt", {"x": "x"}),
+             ("list", lambda **k: cc.ListField(cc.IntField(), **k), [[], [1]], None, {})]
+    for i in range(n):
+        name, mk, values, default, envs = rng.choice(kinds)
+        dflt = (lambda: [9]) if name == "list" else default
+        depth = rng.randint(0, 2)
+        route = rng.choice(["ctor", "ctor", "env"] if envs else ["ctor"])
+        var = "CINCO_T_C12_FALSY_%d" % i
+        s = cc.Schema()
+        holder = s
+        for lvl in range(depth):
+            holder = getattr(holder, "lvl%d" % lvl)
+        holder.x = mk(default=dflt, env=var if route == "env" else False)
+        holder.other = cc.IntField(default=3)
+        typed = rng.random() < 0.4 and depth == 0
+        case = {"stream": "ctor-env", "kind": name, "route": route, "depth": depth, "config_type": typed}
+        path = ".".join(["lvl%d" % l for l in range(depth)] + ["x"])
+        if route == "ctor":
+            v = rng.choice(values)
+            kw = {"x": copy.deepcopy(v)}
+            for lvl in reversed(range(depth)):
+                kw = {"lvl%d" % lvl: kw}
+            try:
+                cfg = cc.make_type(s, "Falsy%d" % i)(**kw) if typed else s(**kw)
+            except Exception as e:  # noqa
+                res.case(None, kind="ctor:raised")
+                res.violate("C12:ctor-raised", "a valid constructor keyword was rejected: %s" % type(e).__name__, dict(case, value=F.enc_val(v)))
+                continue
+            got = cfg[path]
+            res.case(stable([name, depth, F.enc_val(v), typed]) if not v else None, kind="ctor:%s:%s" % (name, "falsy" if not v else "truthy"))
+            if C.plain_copy(list(got) if isinstance(got, list) else got) != v or type(got) is bool and type(v) is not bool:
+                res.violate("C12:ctor-value", "a constructor keyword is not the value the new configuration holds", dict(case, given=F.enc_val(v), held=F.enc_val(C.plain_copy(list(got) if isinstance(got, list) else got))))
+            if not cc.is_value_defined(cfg, path):
+                res.violate("C12:ctor-not-defined", "a field given as a constructor keyword is reported as not user-defined", dict(case, given=F.enc_val(v)))
+            if cc.is_value_defined(cfg, path.rsplit(".", 1)[0] + ".other" if depth else "other"):
+                res.violate("C12:ctor-defined-other", "a constructor keyword made another field user-defined", case)
+        else:
+            text, want = rng.choice(sorted(envs.items()))
+            os.environ[var] = text
+            try:
+                cfg = s()
+                got = cfg[path]
+                res.case(stable([name, depth, text]) if not want else None, kind="env:%s:%s" % (name, "falsy" if not want else "truthy"))
+                if got != want or type(got) is not type(want):
+                    res.violate("C12:env-start-value", "a field bound to a set variable does not start at the variable's validated value", dict(case, variable=text, held=F.enc_val(got)))
+                cfg[path] = values[-1]
+                cc.reset_value(cfg, path)
+                got = cfg[path]
+                if got != want or type(got) is not type(want) or cc.is_value_defined(cfg, path):
+                    res.violate("C12:env-reset-value", "after a reset a field bound to a set variable is not back at the variable's validated value, not user-defined",
+                                dict(case, variable=text, held=F.enc_val(got)))
+            finally:
+                del os.environ[var]
+
+
 def mutable_default_stream(ctx, res, n):
     """declared defaults that are containers of containers (also behind an item field that keeps its items as they are): every
     fresh configuration and every reset exposes the *declared* value, whatever was done in place to an earlier copy"""
@@ -263,6 +327,7 @@ def run(ctx, n_quick=250, n_thorough=8000):
     P.run_stream(ctx, res, "C12", ctx.n(n_quick, n_thorough), oracle, gen_ops=gen_ops)
     callable_stream(ctx, res, ctx.n(3, 30))
     env_empty_stream(ctx, res, ctx.n(4, 60))
+    ctor_env_stream(ctx, res, ctx.n(120, 3000))
     mutable_default_stream(ctx, res, ctx.n(40, 1500))
     challenge_default_stream(ctx, res, ctx.n(20, 400))
     return res
